@@ -43,7 +43,7 @@ structure GJ (G : GGeo) (mem0 : Array Block) (g : GS) (acc : Bytes) (dpos r len 
   e5 : env[5]? = some (mkPtr G.n0 0, .pub)
   ent : s.ent = g.ent
   msz : s.mem.size = G.n0 + 1
-  hP : ∃ Xp, s.mem[G.bp]? = some ⟨Xp, G.baseP⟩ ∧ Xp.size = G.xps ∧ PObjV Xp g.V g.C g.rc g.rl ∧ PCb Xp G.ud
+  hP : ∃ Xp, s.mem[G.bp]? = some ⟨Xp, G.baseP⟩ ∧ Xp.size = G.xps ∧ PObjV Xp g.V g.C g.rc g.rl ∧ PCb Xp G.ud G.cbv
   hH : ∃ XH, s.mem[G.n0]? = some ⟨XH, 0⟩ ∧ XH.size = 32
   hD : ∃ XD, s.mem[G.bd]? = some ⟨XD, G.based⟩ ∧ XD.size = G.XD0.size ∧ BytesV XD G.doff acc ∧ ∀ q, (q < G.doff ∨ G.doff + acc.length ≤ q) → ORel VLe XD[q]? G.XD0[q]?
   oth : ∀ j, j < G.n0 → j ≠ G.bp → j ≠ G.bd → ORel (KeepW (fun _ => False) (fun _ => False)) s.mem[j]? mem0[j]?
@@ -87,7 +87,7 @@ theorem gen_out (G : GGeo) (mem0 : Array Block) (g : GS) (acc : Bytes) (r : Nat)
   obtain ⟨Xp2, hP2, hXp2s, kP2⟩ := okeep_block (by have := K2 G.bp; rw [hP1] at this; exact this)
   obtain ⟨XD2, hD2, hXD2s, kD2⟩ := okeep_block (by have := K2 G.bd; rw [hm1, hDm] at this; exact this)
   have ho2 : PObjV Xp2 g.V g.C g.rc g.rl := pobj_keep kP2 ho (fun q _ h => by omega) (fun q h1 _ h => by omega)
-  have hcb2 : PCb Xp2 G.ud := pcb_keep kP2 hcb (fun q h1 _ => ⟨fun h => by omega, fun h => by omega⟩)
+  have hcb2 : PCb Xp2 G.ud G.cbv := pcb_keep kP2 hcb (fun q h1 _ => ⟨fun h => by omega, fun h => by omega⟩)
   have hXH2s : XH2.size = 32 := by
     obtain ⟨Z, hz, hzs, _⟩ := okeep_block (by have := K2 G.n0; rw [hH1] at this; exact this)
     rw [hH2] at hz; cases hz; rw [hzs]; exact hHs
